@@ -65,6 +65,19 @@ fn atanh(z: Complex<f64>) -> Complex<f64> {
     }
 }
 
+/// tanh(x + iy) = (sinh 2x + i sin 2y) / (cosh 2x + cos 2y): for large |x| both hyperbolic terms overflow to
+/// infinity (inf/inf = NaN) although the quotient is +-1 + 2i sin(2y) e^(-2|x|) to within 1e-17
+fn tanh(z: Complex<f64>) -> Complex<f64> {
+    if z.re.abs() > 20.0 {
+        Complex::new(
+            z.re.signum(),
+            2.0 * (2.0 * z.im).sin() * (-2.0 * z.re.abs()).exp(),
+        )
+    } else {
+        z.tanh()
+    }
+}
+
 pub fn eval(expr: Node) -> Result<Complex<f64>, Box<dyn error::Error>> {
     #[cfg(feature = "verif_hooks")]
     crate::verif_hooks::tick(2);
@@ -81,10 +94,19 @@ pub fn eval(expr: Node) -> Result<Complex<f64>, Box<dyn error::Error>> {
         Abs(sub_expr) => Ok(Complex::new(eval(*sub_expr)?.norm(), 0.0)),
         Sin(sub_expr) => Ok(eval(*sub_expr)?.sin()),
         Cos(sub_expr) => Ok(eval(*sub_expr)?.cos()),
-        Tan(sub_expr) => Ok(eval(*sub_expr)?.tan()),
+        Tan(sub_expr) => {
+            // tan z = -i tanh(iz)
+            let z = eval(*sub_expr)?;
+            if z.im.abs() > 20.0 {
+                let w = tanh(Complex::new(-z.im, z.re));
+                Ok(Complex::new(w.im, -w.re))
+            } else {
+                Ok(z.tan())
+            }
+        }
         Sinh(sub_expr) => Ok(eval(*sub_expr)?.sinh()),
         Cosh(sub_expr) => Ok(eval(*sub_expr)?.cosh()),
-        Tanh(sub_expr) => Ok(eval(*sub_expr)?.tanh()),
+        Tanh(sub_expr) => Ok(tanh(eval(*sub_expr)?)),
         Asin(sub_expr) => {
             // asin z = -i asinh(iz)
             let z = eval(*sub_expr)?;
